@@ -7,6 +7,8 @@ import (
 	"net"
 	"time"
 
+	"github.com/baidu/go-lib/gotrack"
+
 	http "github.com/bfenetworks/bfe/bfe_http"
 	"github.com/bfenetworks/bfe/bfe_http2/hpack"
 )
@@ -57,6 +59,7 @@ func newConnH2() (*serverConn, *fakeConnH2) {
 		initialWindowSize: initialWindowSize,
 		headerTableSize:   initialHeaderTableSize,
 		pushEnabled:       true,
+		serveG:            gotrack.NewGoroutineLock(), // the harness plays the serve goroutine
 
 		readClientAgainTimeout: defaultReadClientAgainTimeout,
 		timeoutEventCh:         make(chan timeoutEventElem, 4),
